@@ -254,14 +254,17 @@ fn main() {
             }
         }
         "distinct" => {
-            let mut set = std::collections::HashSet::new();
+            let mut all: Vec<u64> = Vec::new();
             for p in &args[2..] {
-                let b = std::fs::read(p).unwrap_or_else(|e| die(&format!("{}: {}", p, e)));
-                for c in b.chunks_exact(8) {
-                    set.insert(u64::from_le_bytes(c.try_into().unwrap()));
+                if p.starts_with("--") {
+                    break;
                 }
+                let b = std::fs::read(p).unwrap_or_else(|e| die(&format!("{}: {}", p, e)));
+                all.extend(b.chunks_exact(8).map(|c| u64::from_le_bytes(c.try_into().unwrap())));
             }
-            println!("{}", set.len());
+            all.sort_unstable();
+            all.dedup();
+            println!("{}", all.len());
         }
         _ => die("unknown subcommand"),
     }
